@@ -820,6 +820,14 @@ class Container:
         else:
             raise ValueError("Invalid quantity unit.")
 
+        if source_container.has_liquid():
+            source_mass = None
+        else:
+            # total mass in the source container (before the transfer), for the instructions
+            source_mass = sum(Unit.convert(substance,
+                                           f"{amount} {config.moles_storage_unit if not substance.is_enzyme() else 'U'}",
+                                           "mg") for substance, amount in source_container.contents.items())
+
         source_container, to = deepcopy(source_container), deepcopy(self)
         for substance, amount in source_container.contents.items():
             to_transfer = amount * ratio
@@ -831,15 +839,12 @@ class Container:
             # we will get a negative 0 answer.
             if source_container.contents[substance] == -0.0:
                 source_container.contents[substance] = 0.0
-        if source_container.has_liquid():
+        if source_mass is None:
             transfer = Unit.convert_from_storage(ratio * source_container.volume, 'L')
             transfer, unit = Unit.get_human_readable_unit(transfer, 'L')
         else:
             # total mass in source container times ratio
-            mass = sum(Unit.convert(substance,
-                                    f"{amount} {config.moles_storage_unit if not substance.is_enzyme() else 'U'}",
-                                    "mg") for substance, amount in source_container.contents.items())
-            transfer, unit = Unit.get_human_readable_unit(mass * ratio, 'mg')
+            transfer, unit = Unit.get_human_readable_unit(source_mass * ratio, 'mg')
         precision = config.precisions[unit] if unit in config.precisions else config.precisions['default']
         to.instructions += f"\nTransfer {round(transfer, precision)} {unit} of {source_container.name} to {to.name}"
         to.volume = 0
